@@ -27,6 +27,7 @@ EXTRA.append(N.mkgrid('2.0', [], [('w', []), ('s', [])],
 EXTRA.append(N.mkgrid('2.0', [], [('g', [])],
                       [(C.BY_NAME['dt:fixed-600 gap'].n,), (C.BY_NAME['dt:fixed-540 gap'].n,), (C.BY_NAME['dt:fixed-480 gap'].n,), (C.BY_NAME['dt:fixed+570 gap'].n,),
                        (('str', u'astral \U0001f321 text'),), (('uri', u'http://x/\U0001f600/y'),)]))
+EXTRA.append(N.mkgrid('3.0', [], [('x', []), ('y', [])], [(('xstr', 'Hex', 'ff00'), ('xstr', 'B64', 'AAEC')), (('xstr', 'hex', b'\xff\x00'), ('ref', 'e', ''))]))
 ZBASE = list(c03.BASE) + EXTRA
 JBASE = list(c05.BASE) + EXTRA
 
